@@ -434,7 +434,7 @@ def smin(e):
             if o.get("show_footer", False):
                 inner.append(smin(f))
             total += left + right + max(inner)
-        return max(extra + total, o.get("width") or 0)
+        return max(1, extra + total, o.get("width") or 0)
     if k == "COLS":
         left, right = _lr(e[1].get("padding", (0, 1)))
         items = e[2]
